@@ -136,7 +136,7 @@ pub proof fn lemma_info_image(d0: Seq<u8>, h: Seq<u8>, z: Seq<u8>, tso: int, s: 
 //@rule R16
 //@rule R3 min=3
 //@rule R8
-//@sub /<W: Write \+ Seek \+ Send \+ 'static>\(\s*file: &mut BufWriter<W>,/ => (file: &mut FSink, min=1
+//@sub /<W: Write \+ Seek \+ Send \+ 'static>\(\s*file: &mut BufWriter<W>(?=\s*[,)])/ => (file: &mut FSink min=1
 //@sub /io::Result<\(\)>/ => Result<(), IoError> min=1
 //@sub /\.put_bytes\(/ => .put( min=2
 //@ret r
@@ -170,7 +170,7 @@ pub proof fn lemma_info_image(d0: Seq<u8>, h: Seq<u8>, z: Seq<u8>, tso: int, s: 
 //@rule R6 min=1
 //@rule R7 min=1
 //@rule R8
-//@sub /<W: Write \+ Seek \+ Send \+ 'static>\(\s*file: &mut BufWriter<W>,/ => (file: &mut FSink, min=1
+//@sub /<W: Write \+ Seek \+ Send \+ 'static>\(\s*file: &mut BufWriter<W>(?=\s*[,)])/ => (file: &mut FSink min=1
 //@sub /Result<\(\), ProcessDataError>/ => Result<(), IoError> min=1
 //@sub /assert\(file\.seek_cur\(\(0\)\)\? == 64\);/ => let pos__ = file.tell()?; assert(pos__ == 64); min=1
 //@sub /\.seek_end\(\(0\)\)/ => .seek_end0() min=0
